@@ -16,7 +16,7 @@ cp "$D/demo_test.go" "$WT/zz_demo_test.go"
 if ! git -C "$WT" apply "$D/patch.diff"; then echo "APPLY-FAILED" | tee -a "$R"; exit 2; fi
 (cd "$WT" && timeout 300 go test -vet=off -count=1 -run 'TestDemo$' . > "$OUT/demo_mut.log" 2>&1); DM=$?
 rm "$WT/zz_demo_test.go"
-if [ -z "${SKIP_SUITE:-}" ]; then (cd "$WT" && timeout 1500 go test -vet=off -count=1 -timeout 25m ./... > "$OUT/suite.log" 2>&1); SU=$?; else SU=skipped; fi
+if [ -z "${SKIP_SUITE:-}" ]; then (cd "$WT" && timeout 1500 go test -vet=off -count=1 -timeout 25m ./... > "$OUT/suite.log" 2>&1); SU=$?; if [ $SU -ne 0 ]; then (cd "$WT" && timeout 1500 go test -vet=off -count=1 -timeout 25m ./... > "$OUT/suite.log" 2>&1); SU=$?; fi; else SU=skipped; fi
 echo "demo_clean_exit=$DC demo_mutated_exit=$DM suite_with_change_exit=$SU" | tee -a "$R"
 tail -5 "$OUT/demo_mut.log" >> "$R"
 for P in "$@"; do
